@@ -37,6 +37,14 @@ Theorem C17_scan_iteration_agrees_with_keys : forall (d : db) (p : bytes) (count
 Proof. exact scan_iteration_agrees_with_keys. Qed.
 Print Assumptions C17_scan_iteration_agrees_with_keys.
 
+(* ... stated pointwise: with distinct keys in the table (the store's invariant), every key the pattern selects is returned
+   exactly once over the whole iteration, and nothing else is *)
+Theorem C17_scan_iteration_each_key_once : forall (d : db) (p : bytes) (count : Z), NoDup (map fst d) ->
+  exists ks, scan_iter (S (length d)) (sort_keys (map fst d)) 0 count (regexp_from_glob p) = Some ks /\
+             NoDup ks /\ forall k, In k ks <-> (In k (map fst d) /\ glob_match p k = true).
+Proof. exact scan_iteration_each_key_once. Qed.
+Print Assumptions C17_scan_iteration_each_key_once.
+
 (* what the store model answers to one SCAN is that call, printed — the link between the theorem above and Store.sprim *)
 Theorem C17_scan_reply : forall d cur o,
   sprim d (Handler.HScan cur o) =
